@@ -19,6 +19,14 @@
     function" replaces [extends]).  A dead or unknown handle is a [KeyError]
     and nothing changes.
 
+    Node limit ([bdd.max_nodes], model field [max_nodes]): [<=]/[<] may create
+    nodes, so the theorems that conclude an [Ok] result ([C01_le], [C01_lt],
+    [C01_le_dynamic], [C01_lt_dynamic]) assume [max_nodes (mgr a) = None] (no
+    limit, the default).  With a limit the [or] may raise [RuntimeError]; what
+    holds then is the safety statement of [C08_call] (no side condition: the
+    temporary [~u] dies with the unwinding frame, in CPython as in [f_le]).
+    [==]/[!=] create nothing and need no such hypothesis.
+
     [run_aop' w m o] of [Driver3.astep] is [run_aop w o] for these operations
     ([C01_compare_run_aop']).  Only statements closed by [exact]; proofs live
     in [Proofs/FnCompare.v]. *)
@@ -93,7 +101,8 @@ Proof. exact (conj (fun H => H) (fun H => H)). Qed.
 Print Assumptions C01_CmpFrame_unfold.
 
 Theorem C01_le w hu hv a r a' u v :
-  AInv a → handles a !! hu = Some u → handles a !! hv = Some v →
+  AInv a → max_nodes (mgr a) = None →
+  handles a !! hu = Some u → handles a !! hv = Some v →
   run_aop w (ALe hu hv) a = (r, a') →
   CmpFrame a a' ∧
   ∃ b, r = Ok (VB b) ∧
@@ -102,7 +111,8 @@ Proof. exact (le_returns w hu hv a r a' u v). Qed.
 Print Assumptions C01_le.
 
 Theorem C01_lt w hu hv a r a' u v :
-  AInv a → handles a !! hu = Some u → handles a !! hv = Some v →
+  AInv a → max_nodes (mgr a) = None →
+  handles a !! hu = Some u → handles a !! hv = Some v →
   run_aop w (ALt hu hv) a = (r, a') →
   CmpFrame a a' ∧
   ∃ b, r = Ok (VB b) ∧
@@ -128,7 +138,8 @@ Proof. exact (conj (fun H => H) (fun H => H)). Qed.
 Print Assumptions C01_CmpFrameD_unfold.
 
 Theorem C01_le_dynamic w hu hv a r a' u v :
-  AInvDT a → handles a !! hu = Some u → handles a !! hv = Some v →
+  AInvDT a → max_nodes (mgr a) = None →
+  handles a !! hu = Some u → handles a !! hv = Some v →
   run_aop w (ALe hu hv) a = (r, a') →
   CmpFrameD a a' ∧
   ∃ b, r = Ok (VB b) ∧
@@ -137,7 +148,8 @@ Proof. exact (le_returns_dyn w hu hv a r a' u v). Qed.
 Print Assumptions C01_le_dynamic.
 
 Theorem C01_lt_dynamic w hu hv a r a' u v :
-  AInvDT a → handles a !! hu = Some u → handles a !! hv = Some v →
+  AInvDT a → max_nodes (mgr a) = None →
+  handles a !! hu = Some u → handles a !! hv = Some v →
   run_aop w (ALt hu hv) a = (r, a') →
   CmpFrameD a a' ∧
   ∃ b, r = Ok (VB b) ∧
@@ -167,7 +179,7 @@ Definition outs (w : aworld) (ops : list aop) : list (res value) :=
 Theorem C01_compare_example_invariant :
   AInvT (aworld_get wC 0) ∧ AInv (aworld_get wC 0) ∧ AInvDT (aworld_get wC 0) ∧
   handles (aworld_get wC 0) !! 4 = Some 6%Z ∧ handles (aworld_get wC 0) !! 6 = Some 10%Z ∧
-  handles (aworld_get wC 0) !! 5 = None.
+  handles (aworld_get wC 0) !! 5 = None ∧ max_nodes (mgr (aworld_get wC 0)) = None.
 Proof.
   assert (H : AInvT (aworld_get wC 0)).
   { apply (arun_from_new2 lvc prec 0); [by vm_compute|].
@@ -223,9 +235,10 @@ Definition dync : list aop := [AConfigure (Some true); ASetTrig (Some 1)].
 Definition wD : aworld := arun wC 0 dync.
 
 Theorem C01_compare_example_dynamic_invariant :
-  AInvDT (aworld_get wD 0) ∧ is_Some (last_len (mgr (aworld_get wD 0))).
+  AInvDT (aworld_get wD 0) ∧ is_Some (last_len (mgr (aworld_get wD 0))) ∧
+  max_nodes (mgr (aworld_get wD 0)) = None.
 Proof.
-  split; [|vm_compute; by eexists].
+  split; [|split; [vm_compute; by eexists|by vm_compute]].
   apply (arun_AInvD dync wC 0);
     [exact (proj1 (proj2 (proj2 C01_compare_example_invariant)))|].
   repeat (apply Forall_cons; split; [done|]). by apply Forall_nil.
